@@ -1,6 +1,8 @@
 package vc
 
 import (
+	"go/types"
+	"sync"
 	"fmt"
 	"go/ast"
 	"go/parser"
@@ -90,11 +92,57 @@ func parseClause(file string, line int, text string) (*Clause, error) {
 	return cl, nil
 }
 
+var typedQuantRe = regexp.MustCompile(`\b(?:forall|exists)\(\s*\w+\s*,\s*((?:\*|map\[)[^,]*),`)
+var rtypedNames = map[string]bool{}
+var rtypedMu sync.Mutex
+
+// rtyped: is t one of the reference types some typed quantifier ranges over?
+func rtyped(t types.Type) bool {
+	if t == nil {
+		return false
+	}
+	switch t.Underlying().(type) {
+	case *types.Pointer, *types.Map:
+	default:
+		return false
+	}
+	s := types.TypeString(types.Unalias(t), func(p *types.Package) string {
+		if p.Path() == rootPkg {
+			return ""
+		}
+		return p.Name()
+	})
+	rtypedMu.Lock()
+	defer rtypedMu.Unlock()
+	if rtypedNames[s] {
+		if _, isMap := t.Underlying().(*types.Map); isMap {
+			rtypedMapLeaves["M:"+typeName(t)+".has"] = true
+		}
+		return true
+	}
+	return false
+}
+
+// rtypedMapLeaves: ".has" components of the map types typed quantifiers range over
+var rtypedMapLeaves = map[string]bool{}
+
+func rtypedMapLeaf(leaf string) bool {
+	rtypedMu.Lock()
+	defer rtypedMu.Unlock()
+	return rtypedMapLeaves[leaf]
+}
+
 // ParseContractFile reads //@ clauses from a Go (or .lvc) file.
 func ParseContractFile(path, pkgPath string) ([]*Contract, error) {
 	data, err := os.ReadFile(path)
 	if err != nil {
 		return nil, err
+	}
+	// reference types that typed quantifiers range over: their objects carry a type mark (rtype)
+	for _, m := range typedQuantRe.FindAllStringSubmatch(string(data), -1) {
+		rtypedMu.Lock()
+		rtypedNames[strings.TrimSpace(m[1])] = true
+		rtypedMu.Unlock()
 	}
 	var out []*Contract
 	var cur *Contract
